@@ -57,6 +57,11 @@ CONSTANTS Hashes,      \* hash values of the model names (names sharing a hash =
           CfModes,                   \* start configurations of the directory: subset of CfModeSet
           DevRebuildMergesAcrossState,   \* extent rebuild merges a written and an unwritten neighbour (the first one's state wins)
           DevEncCheckIgnoresStrict,  \* pass 2 verifies the encoding of the names of a casefolded directory although the filesystem is not strict
+          DevCasefoldOpaqueHashFails,    \* literal behaviour of the pinned tree (fixes/C05_casefold_opaque_hash): the directory hash of a
+                                     \* name that is not valid UTF-8 FAILS in a casefolded directory instead of being the hash of
+                                     \* the bytes: pass 2 cannot reproduce the hashes stored in the index ("bad max hash"), clears
+                                     \* the index, pass 3A cannot rebuild it ("Failed to optimize directory"), and the block that
+                                     \* held the index root is left without the checksum tail of a linear block
           DevDupFoldsPlainDir        \* the duplicate search of the directory rebuild compares case-insensitively in a directory without the casefold flag
 
 Modes == {"p", "y", "yD", "b2e", "fo"}       \* -fp, -fy, -fyD, -fy -E bmap2extent, -fy -E fixes_only
@@ -254,6 +259,7 @@ Init ==
     /\ \E S \in SUBSET StartNames : \E lay \in {"linear", "indexed"} : \E c \in CfModes :
          LET d == IF lay = "linear" THEN LinearDir(S) ELSE RehashDir(LinearDir(S).leaves, c)
          IN  leaves = d.leaves /\ index = d.index /\ indexed = d.indexed /\ cfm = c
+             /\ Rng(Flat(d.leaves)) \subseteq StartNames          \* (building the index did not have to rename anything)
     /\ \E D \in SUBSET LBlks : \E f \in {g \in [D -> DataBlks] : Injective(g)} : \E kd \in {"ext", "ind"} : \E mt \in SUBSET MetaBlks :
        \E cuts \in (IF kd = "ind" THEN {D} ELSE SUBSET D) :                      \* a block map is read block by block
        \* un = first blocks of the extents that are unwritten (a block map has no such state)
@@ -295,7 +301,10 @@ Fsck(m) ==
            \* a dx root that fails its checksum is cleared (clear_htree) and the directory rebuilt in pass 3A
            big  == ~indexed /\ Len(leaves) >= 3
            doRehash == m = "yD" \/ ("dxroot" \in badcsum /\ indexed) \/ big
+           hashfails == DevCasefoldOpaqueHashFails /\ ~wipe /\ IsFolded(cfm) /\ \E n \in Rng(Flat(lv1)) : ~ValidEnc(n)
+           idxlost == hashfails /\ indexed
            dirN == IF wipe THEN [leaves |-> lv1, index |-> <<>>, indexed |-> FALSE]
+                   ELSE IF hashfails THEN [leaves |-> lv1, index |-> <<>>, indexed |-> FALSE]      \* index cleared if there was one; no rebuild
                    ELSE IF doRehash THEN RehashDir(lv1, cfm) ELSE [leaves |-> lv1, index |-> index, indexed |-> indexed]
            doRemap == (m = "b2e" /\ kind = "ind") \/ (m # "fo" /\ CanCollapse)
            mapN == IF wipe THEN [exts |-> <<>>, kind |-> kind, meta |-> {}]
@@ -304,11 +313,11 @@ Fsck(m) ==
            own  == Owned(mapN.exts, mapN.meta)
            changed == damaged \/ dirN.leaves # leaves \/ dirN.index # index \/ mapN.exts # exts \/ mapN.meta # meta \/ mapN.kind # kind
        IN  \/ \* repair
-              /\ ~sbstuck
+              /\ ~sbstuck /\ ~(m = "p" /\ idxlost)
               /\ leaves' = dirN.leaves /\ index' = dirN.index /\ indexed' = dirN.indexed /\ cfm' = cfm
               /\ exts' = mapN.exts /\ kind' = mapN.kind /\ meta' = mapN.meta
               /\ bitmap' = own /\ freecnt' = Cardinality(AllBlks) - Cardinality(own)          \* pass 5
-              /\ uninit' = (uninit /\ own = {}) /\ badcsum' = {}
+              /\ uninit' = (uninit /\ own = {}) /\ badcsum' = (IF idxlost THEN {"dirblk0"} ELSE {})
               /\ exit' = IF changed THEN 1 ELSE 0
               /\ dch' = (dirN.leaves # leaves \/ dirN.index # index) /\ mch' = (mapN.exts # exts \/ mapN.kind # kind \/ mapN.meta # meta)
               /\ tree' = AbsTree(dirN.leaves, mapN.exts)
@@ -318,9 +327,9 @@ Fsck(m) ==
               /\ UNCHANGED <<repvars, tree>>
               /\ exit' = 8 /\ dch' = FALSE /\ mch' = FALSE /\ dmgd' = TRUE /\ lin3' = big
            \/ \* preen meets a problem it may not fix on its own and stops: nothing is written
-              /\ m = "p" /\ damaged
+              /\ m = "p" /\ (damaged \/ idxlost)
               /\ UNCHANGED <<repvars, tree>>
-              /\ exit' = 4 /\ dch' = FALSE /\ mch' = FALSE /\ dmgd' = TRUE /\ lin3' = big
+              /\ exit' = 4 /\ dch' = FALSE /\ mch' = FALSE /\ dmgd' = damaged /\ lin3' = big
     /\ mode' = m /\ runs' = runs + 1
     /\ cons' = RepOK'
     /\ UNCHANGED <<tree0, dmg>>
